@@ -4,7 +4,9 @@
    Every statement excludes OutOfFuel / AssertFailed by requiring the result `Ok` / `Some`. *)
 From Coq Require Import List Arith Bool Lia.
 Import ListNotations.
-From Adapt Require Import Dialect.PeelModel Dialect.Peel.
+From Adapt Require Import Num.Qaux Geom.GeomSpec Dialect.PeelModel Dialect.Peel Dialect.PeelCheck Dialect.PeelRoot
+  Dialect.TreeLayoutModel Dialect.TreeLayout Dialect.PlanariseCheckModel Dialect.PlanariseCheck.
+Local Open Scope nat_scope.
 
 (* nodes: core nodes and stem leaves are pairwise distinct and, with the stem roots, make up the input nodes; with a
    non-empty core the roots add nothing (each is a core node or a leaf of a later stem) *)
@@ -32,16 +34,30 @@ Print Assumptions C19_peel_core_no_leaves.
 
 (* the trees returned by peel: their node lists partition the nodes of the stems; each is connected, closed under the
    stem edges (so each stem edge is in exactly one tree) and a forest in the constructive sense (acyclic).
-   PARTIAL with respect to the property text in one point: that the node designated as root by the serial numbers
-   (identify_root) is the unique non-leaf of its tree is not proved; it is checked on every real output (peel_okb). *)
-Theorem C19_peel_trees_are_trees_partial g core trees :
+   The root designated by the serial numbers is the subject of C19_peel_root_unique below. *)
+Theorem C19_peel_trees_are_trees g core trees :
   simple_graph g -> connected g -> peel g = Ok (core, trees) ->
   exists stems, Final g core stems /\
     NoDup (flat_map t_nodes trees) /\
     (forall v, In v (flat_map t_nodes trees) <-> In v (map fst stems) \/ In v (map snd stems)) /\
     forall t, In t trees -> tree_facts (map stem_edge stems) t.
 Proof. exact (peel_trees_are_trees g core trees). Qed.
-Print Assumptions C19_peel_trees_are_trees_partial.
+Print Assumptions C19_peel_trees_are_trees.
+
+(* identifyRootNode (peeling.cpp:80-104): the node with the largest tree serial number is the attachment point of its
+   tree: it is never peeled off as a leaf, every other node of the tree is a peeled leaf, and with a non-empty core it
+   is a core node and the ONLY node the tree shares with the core *)
+Theorem C19_peel_root_unique g core trees :
+  simple_graph g -> connected g -> peel g = Ok (core, trees) ->
+  exists stems, Final g core stems /\
+    forall t, In t trees ->
+      In (t_root t) (t_nodes t) /\
+      ~ In (t_root t) (map fst stems) /\
+      (forall v, In v (t_nodes t) -> v <> t_root t -> In v (map fst stems)) /\
+      (g_nodes core <> [] ->
+       In (t_root t) (g_nodes core) /\ forall v, In v (t_nodes t) -> In v (g_nodes core) -> v = t_root t).
+Proof. exact (peel_root_unique g core trees). Qed.
+Print Assumptions C19_peel_root_unique.
 
 Theorem C19_conncomps_partition g cs :
   graph_wf g -> get_conncomps g = Some cs ->
@@ -56,3 +72,51 @@ Theorem C19_explore_reach fuel es v r :
   explore fuel es [v] [] = Some r -> NoDup r /\ forall x, In x r <-> reach es v x.
 Proof. exact (explore_reach fuel es v r). Qed.
 Print Assumptions C19_explore_reach.
+
+(* ---- the checkers run on the real outputs are verified oracles (Dialect/PeelCheck.v) ---- *)
+(* the exploration never runs out of the fuel the checkers give it *)
+Theorem C19_explore_fuel_adequate (ns : list nat) (es : list edge) (v : nat) :
+  exists r, explore (explore_fuel ns es) es [v] [] = Some r.
+Proof. exact (explore_fuel_adequate_any ns es v). Qed.
+Print Assumptions C19_explore_fuel_adequate.
+
+(* tree characterisation: a connected graph is acyclic (every edge is a bridge) iff it has one edge fewer than nodes *)
+Theorem C19_tree_char (ns : list nat) (es : list edge) :
+  NoDup ns -> ns <> [] -> (forall e, In e es -> In (fst e) ns /\ In (snd e) ns) ->
+  (forall a b, In a ns -> In b ns -> reach es a b) ->
+  (acyclic es <-> S (length es) = length ns).
+Proof. exact (tree_char ns es). Qed.
+Print Assumptions C19_tree_char.
+
+(* the constructive forests of C19_peel_trees_are_trees are acyclic in the sense the checker uses *)
+Theorem C19_forest_acyclic (ns : list nat) (es : list edge) : forest ns es -> acyclic es.
+Proof. exact (forest_acyclic ns es). Qed.
+Print Assumptions C19_forest_acyclic.
+
+Theorem C19_peel_okb_iff g core trees : peel_okb g core trees = true <-> peel_spec g core trees.
+Proof. exact (peel_okb_iff g core trees). Qed.
+Print Assumptions C19_peel_okb_iff.
+
+Theorem C19_conncomps_okb_iff g comps : conncomps_okb g comps = true <-> conncomps_spec_decl g comps.
+Proof. exact (conncomps_okb_iff g comps). Qed.
+Print Assumptions C19_conncomps_okb_iff.
+
+(* ---- symmetric tree layout (V): the checker decides "no two node boxes share an interior point" ---- *)
+Theorem C19_tree_layout_ok_iff bs : tree_layout_ok bs = true <-> tree_layout_spec bs.
+Proof. exact (tree_layout_ok_iff bs). Qed.
+Print Assumptions C19_tree_layout_ok_iff.
+
+(* ---- planarise (V): geometry decider exact; the checker is sound for planarise_spec ---- *)
+Theorem C19_meet_b_ok a b c d : meet_b a b c d = true <-> interiors_meet a b c d.
+Proof. exact (meet_b_ok a b c d). Qed.
+Print Assumptions C19_meet_b_ok.
+
+Theorem C19_planarise_ok_sound orig oedges res redges :
+  planarise_ok orig oedges res redges = true -> planarise_spec orig oedges res redges.
+Proof. exact (planarise_ok_sound orig oedges res redges). Qed.
+Print Assumptions C19_planarise_ok_sound.
+
+Theorem C19_planarise_ok_iff orig oedges res redges :
+  planarise_ok orig oedges res redges = true <-> planarise_spec orig oedges res redges.
+Proof. exact (planarise_ok_iff orig oedges res redges). Qed.
+Print Assumptions C19_planarise_ok_iff.
